@@ -325,9 +325,11 @@ class RemoveKernel(Transformation):
         self.remove_kernels = tuple(kernel.lower() for kernel in as_tuple(remove_kernels))
 
     def transform_subroutine(self, routine, **kwargs):
+        # Match the name of the called kernel in its defining scope, i.e., resolve
+        # a possible renaming upon import (as the planning mode does via the items)
         call_map = {
             call: None for call in FindNodes(ir.CallStatement).visit(routine.body)
-            if str(call.name).lower() in self.remove_kernels
+            if str(getattr(call.name.type, 'use_name', None) or call.name).lower() in self.remove_kernels
         }
         routine.body = Transformer(call_map).visit(routine.body)
 
